@@ -785,6 +785,16 @@ def exec_eval(case, ctx):
         lens = {len(_strip(a)) for a in actions.tolist()}
         ctx.event("padded_variable_length" if len(lens) > 1 else "equal_length")
     cands = _candidates(ctx, name, groups, insts, sizes, sl, ct_of, ct)
+    if "multistart" in method:
+        # the candidate set is the REQUESTED one: num_starts forced first moves per (augmented) instance - the largest
+        # get_reward call of a loader batch holds all rollouts of that batch
+        ns_eff = case["ns"] if case.get("ns") is not None else case["n"]
+        for g, Bj in zip(groups, sizes):
+            per = max((R for _, _, R, _, _ in g["calls"]), default=0) // max(Bj, 1)
+            ctx.check(per % ns_eff == 0 and (method != "multistart_greedy" or per == ns_eff), f"candidate_count|{sl}",
+                      f"num_starts={ns_eff} requested ({'explicitly' if case.get('ns') is not None else 'default'}) but "
+                      f"{per} rollouts per instance were decoded for a loader batch of {Bj}")
+        ctx.event(f"candidate_count_checked|{'explicit' if case.get('ns') is not None else 'default'}_num_starts|{case['api']}")
     greedy = _greedy_reference(case, policy, env, td0, sizes)
 
     R = rewards.double().tolist()
